@@ -5,6 +5,7 @@ open Panacea Pnft Validate
 
 structure PnftD where
   st : Pnft.State := {}
+  saved : Option Pnft.State := none   -- the state at `pnft.begin` (a branch that will be discarded)
   now : Int := 0
 
 def classTok (d : Class) : String :=
@@ -43,6 +44,8 @@ def pnftStep (tbl : AddrTable) (d : PnftD) : List String → Option (PnftD × St
   | ["mon.c12", ds, os] => do
       let ds ← parseList ds; let os ← parseList os
       pure (d, monC12 (codecOf tbl) d.st ds os)
+  | ["pnft.begin"] => some ({ d with saved := some d.st }, "-")
+  | ["pnft.abort"] => some ({ d with st := d.saved.getD d.st, saved := none }, "-")
   | "pnft.msg" :: rest => do
       let m ← parsePnftV rest
       match handle (codecOf tbl) d.now d.st m with
